@@ -350,13 +350,13 @@ theorem drainBody_spec (sz : Nat → Nat) : ∀ (fuel i : Nat) (b : Body) (acc :
       · intro bs h; cases h
       · intro _ bs h; cases h
 
-/-- one plain GET: the body is open, a prefix of the file on 200, and the whole file when the stream ends
-cleanly and the connection has no invisible clean early end -/
-theorem doGet_spec {data : Text} {k : Kind} {c : Conn} {code : Nat} {body : Body}
-    (h : doGet data k c = some (code, body)) :
-    body.closed = false ∧
-    (code = httpOK → body.rest <+: data ∧
-      (body.ending = .clean → c.invisibleEnd data k none = false → body.rest = data)) := by
+/-- one plain GET answered 200 and a consumer loop over its body: what the loop gathered is a prefix of
+the file, and the whole file when it ended with nil and the connection has no invisible clean early end -/
+theorem doGet_drain_spec {data : Text} {k : Kind} {c : Conn} {code : Nat} {ob : Option Body}
+    (h : doGet data k c = some (code, ob)) (hcode : code = httpOK) (sz : Nat → Nat) :
+    (drainResp sz ob).1.bytes <+: data ∧
+    (∀ bs, (drainResp sz ob).1 = .ok bs → c.invisibleEnd data k none = false → bs = data) ∧
+    (∀ bs, (drainResp sz ob).1 ≠ .fuel bs) := by
   unfold doGet at h
   split at h
   · cases h
@@ -367,22 +367,26 @@ theorem doGet_spec {data : Text} {k : Kind} {c : Conn} {code : Nat} {body : Body
     obtain ⟨c0, content⟩ := sv
     simp only [Option.some.injEq, Prod.mk.injEq] at h hsv
     obtain ⟨rfl, hb⟩ := h
+    have hcont := hsv.1 hcode
+    subst hcont
     split at hb
     · next hcond =>
       subst hb
-      refine ⟨rfl, fun hc => ?_⟩
-      have hcont := hsv.1 hc
       simp only [Bool.and_eq_true, List.isEmpty_iff] at hcond
-      rw [← hcont, hcond.1]
-      exact ⟨List.prefix_refl _, fun _ _ => rfl⟩
+      simp only [drainResp, Got.bytes]
+      refine ⟨List.nil_prefix, ?_, ?_⟩
+      · intro bs hbs _; cases hbs; exact hcond.1.symm
+      · intro bs hbs; cases hbs
     · subst hb
       have hmk := mkBody_spec content c
-      refine ⟨hmk.1, fun hc => ?_⟩
-      have hcont := hsv.1 hc
-      subst hcont
-      refine ⟨hmk.2.1, fun he hinv => ?_⟩
-      rcases mkBody_full hsveq hf' (Or.inl hc) hinv (by rw [← hmk.2.2.1]; exact he) with hfull | ⟨_, p, hr, _⟩
-      · exact hfull
+      obtain ⟨d1, d2, d3⟩ := drainBody_spec sz ((mkBody content c).rest.length + 1) 0 (mkBody content c) [] [] hmk.1
+      simp only [List.nil_append] at d1 d2
+      simp only [drainResp]
+      refine ⟨d1.trans hmk.2.1, ?_, d3 (by omega)⟩
+      intro bs hbs hinv
+      obtain ⟨e1, e2⟩ := d2 bs hbs
+      rcases mkBody_full hsveq hf' (Or.inl hcode) hinv (by rw [← hmk.2.2.1]; exact e2) with hfull | ⟨_, p, hr, _⟩
+      · rw [e1, hfull]
       · cases hr
 
 end Apko.Fetch
